@@ -7,6 +7,7 @@ import (
 	"go/token"
 	"go/types"
 	"math/big"
+	"os"
 	"strings"
 
 	"golang.org/x/tools/go/ssa"
@@ -53,6 +54,16 @@ func (x *Exec) doCall(s *State, fr *Frame, i *ssa.Call) bool {
 // callValue performs a call. It returns (results, true) when the call completed within this step,
 // (nil, true) when a frame was pushed (results are bound on return), or (_, false) when the path ended.
 func (x *Exec) callValue(s *State, fr *Frame, fnv Value, args []Value, c *ssa.CallCommon, in ssa.Instruction, deferred bool) ([]Value, bool) {
+	// remember the arguments of the most recent call of each named callee (lastarg / called in exit clauses)
+	if name := calleeNames(c); len(name) > 0 {
+		if s.lastArgs == nil {
+			s.lastArgs = map[string][]Value{}
+		}
+		cp := append([]Value{}, args...)
+		for _, n := range name {
+			s.lastArgs[n] = cp
+		}
+	}
 	if c.IsInvoke() {
 		key := funcKeyOf(c.Method)
 		x.safeNilIface(s, fr, args[0], in)
@@ -153,6 +164,9 @@ func (x *Exec) callUnknown(s *State, fr *Frame, key string, args []Value, sig *t
 		}
 	}
 	reach, all := x.w.reachTypes(ats)
+	if os.Getenv("GOVC_DEBUG") != "" {
+		fmt.Fprintf(os.Stderr, "callUnknown %s args=%d ats=%v reach=%d all=%v frame=%v\n", key, len(args), ats, len(reach), all, x.spec.Frame)
+	}
 	if len(x.spec.Frame) > 0 && (all || len(reach) > 0) {
 		// a callee without contract may write anything reachable, including shared state
 		x.oblige(s, "frame", fmt.Sprintf("frame@%s#%s", shortFn(fnKey(fr.fn)), x.siteOrdinal(fr.fn, in)), TFalse, x.spec.Frame, in.Pos(),
@@ -296,7 +310,9 @@ func (x *Exec) callSpec(s *State, fr *Frame, spec *FuncSpec, key string, args []
 			tags = x.ownerTags
 		}
 		x.oblige(s, "pre", fmt.Sprintf("pre#%s@%s/%s#%s", label, callee, shortFn(fnKey(fr.fn)), site), g, tags, in.Pos(), label)
-		s.assume(g)
+		if x.reqActive(c) {
+			s.assume(g)
+		}
 	}
 	for ci, c := range spec.Panics {
 		g := x.evalBool(ctx, c.Expr)
@@ -496,7 +512,7 @@ func (w *World) reachTypes(ts []types.Type) ([]types.Type, bool) {
 		t = types.Unalias(t)
 		id := types.TypeString(t, nil)
 		if pointee {
-			id = "*" + id
+			id = "@pointee " + id // (not "*": that would collide with the id of the pointer type itself)
 		}
 		if seen[id] {
 			return
@@ -544,4 +560,28 @@ func (w *World) reachTypes(ts []types.Type) ([]types.Type, bool) {
 		return nil, true
 	}
 	return out, false
+}
+
+// calleeNames: the bare name and, for methods, Receiver.Method of a statically known callee.
+func calleeNames(c *ssa.CallCommon) []string {
+	name := ""
+	if c.IsInvoke() {
+		name = c.Method.Name()
+	} else if callee := c.StaticCallee(); callee != nil && callee.Object() != nil {
+		name = callee.Name()
+	}
+	if name == "" {
+		return nil
+	}
+	out := []string{name}
+	if sig := c.Signature(); sig != nil && sig.Recv() != nil {
+		rt := sig.Recv().Type()
+		if p, ok := types.Unalias(rt).(*types.Pointer); ok {
+			rt = p.Elem()
+		}
+		if nt, ok := types.Unalias(rt).(*types.Named); ok {
+			out = append(out, nt.Obj().Name()+"."+name)
+		}
+	}
+	return out
 }
